@@ -27,6 +27,7 @@ func runC11(c *an.Ctx) {
 	x := r11b(c)
 	r11c(c)
 	r11d(c, x)
+	r11e(c)
 }
 
 // enumConsts returns name->value for the constants of the named type in package rel.
@@ -520,4 +521,50 @@ func sameExclusiveAcquisition(a, b ssa.Instruction, suffix string) bool {
 		}
 	}
 	return false
+}
+
+// r11e: an aggregator tells its parent what it holds at the moment of telling: the forwarded value is read from the
+// merged state/status right at the call, with no event emission (which can take arbitrarily long and lets a sibling's
+// update overtake) between the read and the call.
+func r11e(c *an.Ctx) {
+	c.Rule("R11e", "aggregatorRole.updateState/updateStatus forward a value read after the last event emission (a fresh get()), not a copy taken before", 2)
+	for _, m := range []string{"updateState", "updateStatus"} {
+		fn := c.MustFn("core/workflow", "aggregatorRole."+m)
+		if fn == nil {
+			continue
+		}
+		c.Subject()
+		ok, n := true, 0
+		an.Instrs(fn, func(in ssa.Instruction) {
+			pc, isCall := in.(*ssa.Call)
+			if !isCall || !pc.Call.IsInvoke() || pc.Call.Method.Name() != m {
+				return
+			}
+			n++
+			if len(pc.Call.Args) != 1 {
+				ok = false
+				return
+			}
+			get, isGet := an.Strip(pc.Call.Args[0]).(*ssa.Call)
+			if !isGet || an.MethodName(&get.Call) != "get" {
+				ok = false
+				return
+			}
+			// nothing that emits an event lies between the read and the forward
+			an.Instrs(fn, func(e ssa.Instruction) {
+				ec, isEC := e.(*ssa.Call)
+				if !isEC || ec == get || ec == pc {
+					return
+				}
+				name := an.MethodName(&ec.Call)
+				if name == "SendEvent" || name == "WriteEvent" || name == "WriteEventWithTimestamp" {
+					if an.CanReach(get, ec) && an.CanReach(ec, pc) && an.Dominates(get, ec) {
+						ok = false
+					}
+				}
+			})
+		})
+		c.Ob("(*core/workflow.aggregatorRole)."+m+"|forwards-fresh-read", fn.Pos(), ok && n >= 1,
+			"the value handed to the parent must be read from the merged %s at the moment of the call (%d forwarding call(s)): a copy taken before the events are written can be overtaken by a sibling's update, and the parent - which takes MIXED/ERROR/UNDEFINED at face value - keeps the stale value", strings.TrimPrefix(m, "update"), n)
+	}
 }
